@@ -347,7 +347,11 @@ def impl(case):
         for op in case['ops']:
             if case.get('fan'):
                 cur = start
-            new, res, ok = apply_op(cur, op)
+            try:
+                new, res, ok = apply_op(cur, op)
+            except Exception as e:      # the operation raised: reported for this step, the history goes on
+                out.append({'r': {'exception': compat.pybtex_error_kind(e), 'detail': '%s' % e}, 'f': True})
+                continue
             # a query leaves the current object alone: only its result is reported
             out.append({'r': res, 'f': ok} if is_query(op) else snap(new, res, ok))
             cur = new
@@ -421,6 +425,12 @@ def oracle(case, impl_out, reply):
         clause = CLAUSE.get(name, name)
         if not a.get('f', True):
             fails.append('operands_never_modified: step %d (%s) changed one of its operands' % (i, name))
+            break
+        if isinstance(a.get('r'), dict) and 'exception' in a['r']:
+            exp = {'value': _show(b['v']) if 'v' in b else None,
+                   'res': '<table>' if isinstance(b.get('r'), dict) and 'idx' in b['r'] else b.get('r')}
+            fails.append('%s_total: step %d (%s) on %r raised %s (%s) where the string-of-pairs semantics defines the result %r' % (
+                clause, i, json.dumps(op), _show(cur).get('sem'), a['r']['exception'], a['r'].get('detail'), exp))
             break
         if 'v' in a:
             cur = a['v']
